@@ -26,6 +26,12 @@ TRUSTED = [
     "Spec/World.v specifies the proximal operator of a world's function (prox_genuine); that the proximal point of a "
     "convex function meets it is C08's optimality theorem (Proofs/C09Prox.v is_prox_spec)",
     "Spec/World.v: what running a method in a world means (hand-written specification)",
+    "Spec/World.v specifies the epsilon-subgradient oracle (epssub_spec: the conjugate is attained at a point y, as in "
+    "PEPit's encoding), the mirror map inverse (mirror_genuine) and the Bregman proximal operator (bprox_genuine); that "
+    "the real steps meet them is C08's theorems (Proofs/C09Steps.v is_epssub_spec / is_mirror_spec / is_bprox_spec)",
+    "Spec/World.v specifies the approximate proximal operator of inexact_proximal_step (iprox_spec: genuine samples and the "
+    "criterion of the option with the accuracy returned; it is the primal-dual gap of C08, Proofs/C09Steps.v "
+    "iprox_spec_is_pd_gap); the model asks for a positive step size (Python divides by gamma only for 'PD_gapIII')",
     "the link between an example's Python code and the method named in its docstring is informal",
     "harness/concrete.py (numerical members and exact steps) is used only to search for counterexamples",
 ]
@@ -43,7 +49,7 @@ CLASSES_FOR_RECORDING = ["SmoothConvexFunction", "ConvexFunction", "SmoothStrong
 
 # ------------------------------------------------------------------ stream 1: oracle recording
 def gen_program(rng):
-    """random program of free points, stationary points, oracle calls and proximal steps; one case in five is an
+    """random program of free points, stationary points, oracle calls and primitive steps; one case in five is an
     interleaved proximal-gradient-like run on two functions (see gen_splitting)"""
     if rng.random() < 0.2:
         return gen_splitting(rng)
@@ -74,6 +80,63 @@ def gen_program(rng):
         else:
             continue
         r = rng.random()
+        if r < 0.08:
+            # x, g0, f0, eps = epsilon_subgradient_step(p, f, gamma): a fresh leaf g0, the oracle call f.value(p) (p not
+            # yet evaluated on f), a fresh value leaf epsilon, fresh leaves y, fy, the sample (y, g0, fy) and one
+            # constraint on f (three point leaves, three value leaves)
+            seen[f].add(((npnt + 2, 1),))
+            ops.append(("epssub", f, list(zip(keys, coefs)), rng.choice([0.5, 1, 2.0, 0, -1, 0.25])))
+            npnt += 3
+            continue
+        if r < 0.15:
+            # x, sx, hx = bregman_gradient_step(gx0, sx0, h, gamma): the recorded point is the fresh leaf x, the recorded
+            # gradient sx0 - gamma * gx0 (sometimes the zero vector: an empty dictionary)
+            seen[f].discard(key)
+            seen[f].add(((npnt, 1),))
+            kk = rng.sample(range(npnt), rng.randint(1, min(2, npnt)))
+            gx0 = [(q, rng.choice([1, -1, 2, 0.5])) for q in kk]
+            sx0 = list(zip(keys, coefs))
+            gamma = rng.choice([0.5, 1, 2.0, 0.25, 0, -1, 1.5])
+            if rng.random() < 0.1:
+                gx0, gamma = list(sx0), 1
+            ops.append(("breggrad", f, sx0, gx0, gamma))
+            npnt += 1
+            continue
+        if r < 0.22:
+            # x, sx, hx, gx, fx = bregman_proximal_step(sx0, h, f, gamma): fresh leaves x, gx; (x, gx, fx) on f2 and then
+            # (x, sx0 - gamma * gx, hx) on the mirror map f (f2 may be f itself)
+            f2 = rng.randrange(nf)
+            seen[f].discard(key)
+            seen[f].add(((npnt, 1),))
+            seen[f2].add(((npnt, 1),))
+            ops.append(("bregprox", f, list(zip(keys, coefs)), f2, rng.choice([0.5, 1, 2.0, 0.25, 1.5, 4.0, 0, -1])))
+            npnt += 2
+            continue
+        if r < 0.31:
+            # x, gx, fx, w, v, fw, eps_var = inexact_proximal_step(p, f, gamma, opt): 'PD_gapI' four point leaves, samples
+            # (w, v, fw), (x, gx, fx); 'PD_gapII' two point leaves, the sample (p - gamma * gx + e, gx, fx); 'PD_gapIII'
+            # three point leaves, samples (x, gx, fx), (w, (p - x) / gamma, fw); three / two value leaves and one
+            # constraint on f.  Step sizes are powers of two (1 / gamma is computed in floating point), 0 and -1 only
+            # where Python does not divide by gamma
+            opt = rng.choice(["PD_gapI", "PD_gapII", "PD_gapIII"])
+            gamma = rng.choice([0.5, 1, 2.0, 0.25, 4.0, 0.125] + ([0, -1] if opt != "PD_gapIII" else [-2.0]))
+            comb = list(zip(keys, coefs))
+            seen[f].discard(key)
+            if opt == "PD_gapI":
+                seen[f].add(((npnt + 1, 1),))
+                seen[f].add(((npnt + 2, 1),))
+                npnt += 4
+            elif opt == "PD_gapII":
+                seen[f].add(tuple(sorted([(k, c) for k, c in comb] + ([(npnt + 1, -gamma)] if gamma != 0 else [])
+                                         + [(npnt, 1)])))
+                npnt += 2
+            else:
+                seen[f].add(((npnt, 1),))
+                seen[f].add(((npnt + 2, 1),))
+                npnt += 3
+            ops.append(("iprox", f, comb, gamma, opt))
+            continue
+        r = (r - 0.31) / 0.69
         if r < 0.15:
             # x, gx, fx = linear_optimization_step(dir, f): the recorded point is the fresh leaf x; one time in ten
             # the direction is 0 * leaf (the recorded gradient dictionary is then empty)
@@ -175,7 +238,19 @@ def impl_program(nf, ops, rng_classes):
                     p = leaf(comb[0][0])
                 return p
             p = build(comb)
-            if op[0] == "prox":
+            if op[0] == "epssub":
+                from PEPit.primitive_steps import epsilon_subgradient_step
+                epsilon_subgradient_step(p, funcs[f], op[3])
+            elif op[0] == "breggrad":
+                from PEPit.primitive_steps import bregman_gradient_step
+                bregman_gradient_step(build(op[3]), p, funcs[f], op[4])
+            elif op[0] == "bregprox":
+                from PEPit.primitive_steps import bregman_proximal_step
+                bregman_proximal_step(p, funcs[f], funcs[op[3]], op[4])
+            elif op[0] == "iprox":
+                from PEPit.primitive_steps import inexact_proximal_step
+                inexact_proximal_step(p, funcs[f], op[3], opt=op[4])
+            elif op[0] == "prox":
                 from PEPit.primitive_steps import proximal_step
                 proximal_step(p, funcs[f], op[3])
             elif op[0] == "linopt":
@@ -201,7 +276,8 @@ def impl_program(nf, ops, rng_classes):
                      T.dump_edict(fx.decomposition_dict, pid, xid)] for x, g, fx in f.list_of_points])
     # third entry: the model's well-formedness check of the program (evaluated points only mention existing leaves,
     # which holds by construction; proximal steps have a positive step size)
-    wf = 0 if any(op[0] == "prox" and not op[3] > 0 for op in ops) else 1
+    wf = 0 if any((op[0] == "prox" and not op[3] > 0) or (op[0] == "bregprox" and not op[4] > 0)
+                    or (op[0] == "iprox" and not op[3] > 0) for op in ops) else 1
     cons = [[T.dump_constraint(c, pid, xid) for c in f.list_of_constraints] for f in funcs]
     return [Point.counter, Expression.counter, wf, out, cons]
 
@@ -228,6 +304,15 @@ def coq_program(nf, ops):
         elif op[0] == "inexact":
             items.append("MInexact %s %s %s %s" % (coq_nat(op[1]), model_point(op[2]),
                                                    "true" if op[3] == "relative" else "false", coq_q(op[4])))
+        elif op[0] == "iprox":
+            items.append("MInexactProx %s %s %s %s" % (coq_nat(op[1]), model_point(op[2]), coq_q(op[3]),
+                                                       {"PD_gapI": "PDgapI", "PD_gapII": "PDgapII", "PD_gapIII": "PDgapIII"}[op[4]]))
+        elif op[0] == "epssub":
+            items.append("MEpsSub %s %s" % (coq_nat(op[1]), model_point(op[2])))
+        elif op[0] == "breggrad":
+            items.append("MBregGrad %s %s %s %s" % (coq_nat(op[1]), model_point(op[3]), model_point(op[2]), coq_q(op[4])))
+        elif op[0] == "bregprox":
+            items.append("MBregProx %s %s %s %s" % (coq_nat(op[1]), coq_nat(op[3]), model_point(op[2]), coq_q(op[4])))
         else:
             items.append("MEval %s %s" % (coq_nat(op[1]), model_point(op[2])))
     return "(%s, %s)" % (coq_nat(nf), coq_list(items))
@@ -237,7 +322,8 @@ def stream_recording(tier, seed):
     rng = random.Random(seed * 104729 + 9)
     n = 400 if tier == "quick" else 4000
     cases, progs = [], []
-    hist = {"fresh": 0, "eval": 0, "stat": 0, "prox": 0, "linopt": 0, "inexact": 0, "linesearch": 0}
+    hist = {"fresh": 0, "eval": 0, "stat": 0, "prox": 0, "linopt": 0, "inexact": 0, "linesearch": 0,
+            "epssub": 0, "breggrad": 0, "bregprox": 0, "iprox": 0}
     n_interleaved = 0
     distinct = set()
     for i in range(n):
@@ -248,7 +334,8 @@ def stream_recording(tier, seed):
         progs.append((nf, ops))
         for op in ops:
             hist[op[0]] += 1
-        if sum(1 for op in ops if op[0] in ("eval", "prox", "linopt", "inexact", "linesearch")) >= 2:
+        if sum(1 for op in ops if op[0] in ("eval", "prox", "linopt", "inexact", "linesearch",
+                                            "epssub", "breggrad", "bregprox", "iprox")) >= 2:
             distinct.add(repr((nf, ops)))
         if any(op[0] == "prox" for op in ops) and any(op[0] == "eval" for op in ops):
             n_interleaved += 1
@@ -261,7 +348,12 @@ def stream_recording(tier, seed):
                      "linear-optimization steps (the real linear_optimization_step, incl. the zero direction) and inexact "
                      "gradient steps (the real inexact_gradient_step, both notions; its accuracy constraint on the "
                      "function is compared too) and exact line searches (the real exact_linesearch_step with 0-2 directions, "
-                     "its orthogonality constraints compared too) on 1-3 "
+                     "its orthogonality constraints compared too) and epsilon-subgradient steps (the real "
+                     "epsilon_subgradient_step: three point leaves, three value leaves, two samples, its constraint compared "
+                     "too) and Bregman gradient / proximal steps (the real bregman_gradient_step incl. a zero dual point, "
+                     "bregman_proximal_step on one or two functions, step sizes incl. 0 and a negative one) and inexact "
+                     "proximal steps (the real inexact_proximal_step, all three options, its accuracy constraint compared "
+                     "too) on 1-3 "
                      "leaf functions (6 classes) at dyadic combinations of earlier leaves; one program in five is a "
                      "proximal-gradient / prox-prox run on two functions with oracle calls and proximal steps "
                      "interleaved; non-trivial = at least 2 evaluations / proximal steps; distinct by syntax",
